@@ -9,9 +9,16 @@ package c17
 //   - no call returns an error, except that a key update that would change the order may (and in the
 //     code does) come back as (false, error): only the "false + nothing changed" part is asserted;
 //   - Count() equals the model's size after every call;
-//   - the store's content (structural walk of the harness-owned repository after every operation, public
-//     First/Next and Last/Previous scans at Scan operations) is sorted by key and equals the model as a
-//     multiset; the relative order of equal keys is never asserted;
+//   - the store's content as returned by the public cursor API (First/Next and Last/Previous scans,
+//     items read with GetCurrentKey/GetCurrentValue) is sorted by key and equals the model as a
+//     multiset; the relative order of equal keys is never asserted. Such scans run at Scan operations
+//     and whenever the cheap observation disagrees: after every operation the harness-owned repository
+//     is walked in order (cursor untouched); a walk that matches the model settles the step, a walk that
+//     flags anything (structural problem, content or order difference) is only an ALARM that is counted
+//     and re-judged through the two public scans. An internal-structure anomaly that no public
+//     observation shows is not a violation of C17 (counter walk_alarms_not_visible_through_public_api);
+//   - every item a scan stops on is an item (non-nil item id): a positioning call that returns true on a
+//     slot holding nothing is reported as "yields-empty-item";
 //   - Update/Upsert/UpdateKey/Remove on a duplicated key may affect ANY ONE of the equal-key items: the
 //     model adopts the store's choice when it is legal;
 //   - Update/Upsert may or may not replace the stored key's payload (Tag): the interface comment says
@@ -24,7 +31,7 @@ import (
 	"fmt"
 	"runtime/debug"
 	"strings"
-	
+
 	"github.com/sharedcode/sop"
 )
 
